@@ -108,7 +108,7 @@ theorem shape_of_stat (c : Nat) (hv : codecValid c = true) : ∀ n : WNode, Stat
     intro o ho
     by_cases hne : cs = []
     · rw [hne] at ho; simp at ho
-    · obtain ⟨_, _, _, _, e5⟩ := s3 hne
+    · obtain ⟨_, _, _, _, e5, _⟩ := s3 hne
       exact ih o ho ((statList_iff _ _ _).mp e5 o ho).1
 
 theorem leaves_sum_list (cs : List WNode)
@@ -128,7 +128,7 @@ theorem stat_leaves_sum (c : Nat) : ∀ n : WNode, Stat c n →
   obtain ⟨s1, s2, s3⟩ := hs
   by_cases hne : cs = []
   · subst hne; simp [leavesOf, WNode.dRangeSize]
-  · obtain ⟨_, _, _, e4, e5⟩ := s3 hne
+  · obtain ⟨_, _, _, e4, e5, _⟩ := s3 hne
     rw [leavesOf_branch _ _ _ _ _ _ _ hne]
     simp only [WNode.dRangeSize]
     rw [e4]
